@@ -398,6 +398,16 @@ class Suspend:
         return r
 
 
+class _Deferred:
+    """An awaitable that is not a coroutine object."""
+
+    def __init__(self, coro) -> None:
+        self._coro = coro
+
+    def __await__(self):
+        return self._coro.__await__()
+
+
 class Env:
     """Holds the virtual clock, the oracle and the logs for one case."""
 
@@ -411,6 +421,7 @@ class Env:
         self.op_count = 0
         self.call_start = 0
         self._wall = random.Random(wall_seed)
+        self.wall_seed_bits = wall_seed          # bits 1, 2 choose among equivalent callable forms
         self.is_async = cfg.has("async")
         self.deliver_throw = False     # deliver cancellation kinds by coro.throw at a suspension
         self._install_shims()
@@ -624,6 +635,15 @@ class Env:
                 await self._araise_or(a)
             return ahook
 
+        if self.is_async and (self.wall_seed_bits & 4):
+            async def later(ctx, d):
+                a = self.ask(f"beforeSleep {lvl} {self.bctx(ctx)} {to_ticks(d)}", "beforeSleep")
+                await self._araise_or(a)
+
+            def deferred_hook(ctx, d):
+                return _Deferred(later(ctx, d))
+            return deferred_hook
+
         def hook(ctx, d):
             a = self.ask(f"beforeSleep {lvl} {self.bctx(ctx)} {to_ticks(d)}", "beforeSleep")
             self._raise_or(a)
@@ -635,6 +655,17 @@ class Env:
                 a = self.ask(f"sleeper {lvl} {to_ticks(d)}", "sleeper", {"d": to_ticks(d)})
                 await self._araise_or(a)
             return asleeper
+
+        if self.is_async and (self.wall_seed_bits & 2):
+            # a plain function returning an awaitable that is NOT a coroutine (as a Future or an object with
+            # __await__ would be): nothing happens unless the library awaits it
+            async def later(d):
+                a = self.ask(f"sleeper {lvl} {to_ticks(d)}", "sleeper", {"d": to_ticks(d)})
+                await self._araise_or(a)
+
+            def deferred_sleeper(d):
+                return _Deferred(later(d))
+            return deferred_sleeper
 
         def sleeper(d):
             a = self.ask(f"sleeper {lvl} {to_ticks(d)}", "sleeper", {"d": to_ticks(d)})
